@@ -1,4 +1,5 @@
 """C05 - Batch target preserves the same program semantics under cmd.exe's rules."""
+import os
 import random
 
 import batchcheck
@@ -26,6 +27,15 @@ def _sim(script):
         return ("budget", "", None)
     except (RecursionError, MemoryError):
         return ("budget", "recursion/memory", None)
+
+
+def _read(name):
+    with open(os.path.join(common.VERIF, "corpus", "C05", name)) as fh:
+        return fh.read()
+
+
+# (name, source, expected output = Go's meaning, as bash prints it)
+DIRECTED = [("case-insensitive-names", _read("case-insensitive-names.tsh"), "1 2\n8\n7\n")]
 
 
 def run(res, b, tier, seed):
@@ -75,6 +85,11 @@ def run(res, b, tier, seed):
                                                      switch_break_static=bool(ks.get("_switch_break_static")), switch_tag_call=bool(ks.get("_switch_tag_call")), range_call=bool(ks.get("_range_call")))))
         finally:
             gen_prog.BITS = 64
+        if base == 0:
+            # directed programs (corpus/C05): identifiers that differ only in letter case (known finding batch-names-case-insensitive)
+            flags = dict(panic_in_func=False, empty_substr=False, minint=False, switch_break=False, switch_break_static=False, switch_tag_call=False, range_call=False)
+            for name, src, exp in DIRECTED:
+                cases.append(pipeline.Case("d-" + name, {"main.tsh": src.encode()}, meta=dict(src=src, expected_out=exp, expected_status=0, case_clash=True, **flags)))
         pipeline.run_pipe(b, cases, "w")
         pipeline.model_batch(b, cases)
         for c in cases:
@@ -129,6 +144,8 @@ def run(res, b, tier, seed):
                                      other_cases=[(a, g) for a, g, _ in calib_bad[1:5]]))
     real = []
     for c, what, r in fails:
+        if c.meta.get("case_clash") and what.startswith(("behaviour", "structure: label")) and res.known_finding("batch-names-case-insensitive", what):
+            continue
         if c.meta["panic_in_func"] and res.known_finding("panic-in-function-returns-to-caller", what):
             continue
         if c.meta["empty_substr"] and res.known_finding("substring-of-empty-string", what):
